@@ -213,7 +213,7 @@ fn thread_snapshot() -> Vec<(u64, char, u64, u64)> {
 /// merely read the queue length - they wake nobody). Nothing in the child waits for input from
 /// outside and the caller (the watchdog) wakes nobody, so no thread can ever do useful work again.
 /// A merely slow run has a thread that is runnable ('R'), in disk wait ('D'), or burning CPU.
-fn os_stuck_proof() -> Option<String> {
+pub fn os_stuck_proof() -> Option<String> {
     let s0 = thread_snapshot();
     let l0 = vh::log_len();
     if s0.is_empty() || s0.iter().any(|t| t.1 != 'S') {
